@@ -416,7 +416,26 @@ class FTPProcessorSession(BaseProcessorSession):
 
             _logger.debug('symlink {} -> {}', symlink_path, link_target)
 
-            os.symlink(link_target, symlink_path)
+            if os.path.basename(link_name) != link_name or \
+                    link_name in ('', '.', '..'):
+                _logger.warning(
+                    _('Not creating symbolic link {symlink_path}: '
+                      'the name leaves the directory.'),
+                    symlink_path=symlink_path
+                )
+                return
+
+            try:
+                os.symlink(link_target, symlink_path)
+            except (OSError, ValueError) as error:
+                # The names are the server's. A link that cannot be made
+                # must not end the crawl.
+                _logger.warning(
+                    _('Could not create symbolic link {symlink_path}: '
+                      '{error}'),
+                    symlink_path=symlink_path, error=error
+                )
+                return
 
             _logger.info(
                 _('Created symbolic link {symlink_path} to target {symlink_target}.'),
